@@ -36,6 +36,10 @@ def config_event(ctx, flavour="hooks"):
 def model_check(ctx, cfgs, workers=8):
     """Exhaustive TLC runs of the API model; returns (states, transitions)."""
     st = tr = 0
+    # non-vacuity: the deliberately wrong model (token after the size check) must violate an invariant
+    m = ctx.tlc("XCryptMC.tla", "XCryptMC_mutant.cfg", workers=2, timeout=600)
+    if not m["violated"]:
+        raise Broken("non-vacuity: the mutant model was not rejected")
     for cfg in cfgs:
         r = ctx.tlc("XCryptMC.tla", cfg, workers=workers, timeout=1500)
         if r["violated"]:
